@@ -782,6 +782,9 @@ func (env *CEnv) specCall(name string, e *CExpr) Val {
 		}
 	}
 	t := App(name, sig.Res, args...)
+	if name == "sub" && len(args) == 3 {
+		t = subBytes(args[0], args[1], args[2]) // same normalisation as in the symbolic executor
+	}
 	if sig.Res == SBool {
 		return boolSV(t)
 	}
